@@ -154,10 +154,11 @@ fn enumerate(k: usize) -> Vec<Tree> {
     out
 }
 
-fn scan(root: &Path) -> (FixtureDatabase, BTreeSet<String>) {
-    let cfg = Config::load(root);
+/// `given` = the root as spelled by the client, `root` = its canonical location (index keys are canonical)
+fn scan(given: &Path, root: &Path) -> (FixtureDatabase, BTreeSet<String>) {
+    let cfg = Config::load(given);
     let db = FixtureDatabase::new();
-    db.scan_workspace_with_excludes(root, &cfg.exclude);
+    db.scan_workspace_with_excludes(given, &cfg.exclude);
     let rs = root.to_string_lossy().to_string();
     let files: BTreeSet<String> = db.file_cache.iter().map(|e| crate::db::rel(e.key(), &rs)).collect();
     (db, files)
@@ -168,17 +169,37 @@ pub fn run(rep: &'static Report) {
     let trees = enumerate(if thorough { 3 } else { 2 });
     let roots_all = ["plain/ws", "build/ws", "env/proj", "venv/ws", "target/debug/ws", "dist/ws", "x.egg-info/ws", "site-packages/ws", "my-site-packages-x/ws", "node_modules/ws"];
     let roots: Vec<&str> = if thorough { roots_all.to_vec() } else { vec!["plain/ws", "build/ws", "env/proj", "site-packages/ws", "my-site-packages-x/ws"] };
+    // how the root is spelled when handed to the scan: canonical, through a symbolic link that lives
+    // elsewhere, or with a `..` component (an editor passes the client's spelling through unchanged)
+    let spelled: Vec<(&str, u8)> = roots
+        .iter()
+        .enumerate()
+        .flat_map(|(i, r)| if thorough || i == 1 || i == 2 { vec![(*r, 0u8), (*r, 1), (*r, 2)] } else { vec![(*r, 0u8)] })
+        .collect();
     let scans = AtomicU64::new(0);
     let nontrivial = AtomicU64::new(0);
     par_batches(&trees, 8, |i, t| {
         let want = t.expected();
         let mut base: Option<Vec<String>> = None;
-        for (ri, r) in roots.iter().enumerate() {
+        for (ri, (r, spelling)) in spelled.iter().enumerate() {
             let sc = Scratch::new("c13");
             let root = sc.path().join(r);
             std::fs::create_dir_all(&root).unwrap();
             t.materialize(&root);
-            let res = std::panic::catch_unwind(|| scan(&root));
+            let given: PathBuf = match spelling {
+                0 => root.clone(),
+                1 => {
+                    let link = sc.path().join("elsewhere-link");
+                    std::os::unix::fs::symlink(&root, &link).unwrap();
+                    link
+                }
+                _ => {
+                    let parent = root.parent().unwrap();
+                    std::fs::create_dir_all(parent.join("other")).unwrap();
+                    parent.join("other").join("..").join(root.file_name().unwrap())
+                }
+            };
+            let res = std::panic::catch_unwind(|| scan(&given, &root));
             scans.fetch_add(1, Ordering::Relaxed);
             let (db, files) = match res {
                 Ok(x) => x,
@@ -187,11 +208,11 @@ pub fn run(rep: &'static Report) {
                     continue;
                 }
             };
-            let case = || json!({"tree": t, "root_location": r, "files": t.files().iter().map(|f| f.0.clone()).collect::<Vec<_>>(), "indexed": files, "expected": want});
+            let case = || json!({"tree": t, "root_location": r, "root_spelling": (["canonical", "symlink", "dotdot"][*spelling as usize]), "files": t.files().iter().map(|f| f.0.clone()).collect::<Vec<_>>(), "indexed": files, "expected": want});
             if files != want {
                 let extra: Vec<&String> = files.difference(&want).collect();
                 let missing: Vec<&String> = want.difference(&files).collect();
-                let loc = if ri == 0 { "plain location".to_string() } else { format!("root below `{}`", r.split('/').next().unwrap()) };
+                let loc = format!("{}{}", if ri == 0 { "plain location".to_string() } else { format!("root below `{}`", r.split('/').next().unwrap()) }, ["", ", given through a symbolic link", ", given with a `..` component"][*spelling as usize]);
                 let why = if !missing.is_empty() && extra.is_empty() && files.is_empty() {
                     "nothing indexed".to_string()
                 } else {
@@ -228,7 +249,7 @@ pub fn run(rep: &'static Report) {
                     if *b != snap {
                         let diff: Vec<&String> = snap.iter().filter(|l| !b.contains(l)).collect();
                         let kinds: BTreeSet<String> = diff.iter().map(|l| l.split(' ').next().unwrap_or("").to_string()).collect();
-                        let fp = format!("answers change when the workspace is moved below `{}`: {:?}", r.split('/').next().unwrap(), kinds);
+                        let fp = format!("answers change when the workspace is moved below `{}`{}: {:?}", r.split('/').next().unwrap(), ["", " and given through a symbolic link", " and given with a `..` component"][*spelling as usize], kinds);
                         if !rep.count_if_seen(&fp) {
                             rep.violation(&fp, &format!("tree {:?}: {:?}", t, diff.iter().take(6).collect::<Vec<_>>()), case);
                         }
@@ -246,11 +267,12 @@ pub fn run(rep: &'static Report) {
     rep.set("evaluations", scans.load(Ordering::Relaxed));
     rep.set("trees", trees.len() as u64);
     rep.set("root_locations", json!(roots));
+    rep.set("root_spellings", json!(spelled.iter().map(|(r, s)| format!("{} [{}]", r, ["canonical", "symlink", "dotdot"][*s as usize])).collect::<Vec<_>>()));
     rep.set("states", trees.len() as u64);
     rep.set("transitions", scans.load(Ordering::Relaxed));
     rep.set("distinct_nontrivial", nontrivial.load(Ordering::Relaxed));
     rep.set("traces_validated_against_impl", scans.load(Ordering::Relaxed));
     rep.set("exhaustive", true);
-    rep.set("rule", "real directory trees on tmpfs: base tree {conftest.py importing support.py and support2.py, test_a.py, pkg/b_test.py, pkg/sub/conftest.py, notes.py} with at most 2 (quick) / 3 (thorough) deviations among: one of 8 near-pattern file names at 2 places, one of 27 ignored directory names (every SKIP_DIRECTORIES entry and *.egg-info) at depth 1..3 holding a test file and a conftest, one of 4 fault kinds (non-UTF-8 test file, non-UTF-8 imported module, dangling symlink, directory named like a test file), one of 4 exclude sets given through pyproject.toml (incl. an invalid glob mixed with a valid one); every tree is created under each root location (plain and below ancestors named like ignored directories or containing 'site-packages') and scanned with the real scan_workspace_with_excludes; oracle: the indexed file set equals the reference discovery model, and every root-relative answer and classification is identical across root locations");
+    rep.set("rule", "real directory trees on tmpfs: base tree {conftest.py importing support.py and support2.py, test_a.py, pkg/b_test.py, pkg/sub/conftest.py, notes.py} with at most 2 (quick) / 3 (thorough) deviations among: one of 8 near-pattern file names at 2 places, one of 27 ignored directory names (every SKIP_DIRECTORIES entry and *.egg-info) at depth 1..3 holding a test file and a conftest, one of 4 fault kinds (non-UTF-8 test file, non-UTF-8 imported module, dangling symlink, directory named like a test file), one of 4 exclude sets given through pyproject.toml (incl. an invalid glob mixed with a valid one); every tree is created under each root location (plain and below ancestors named like ignored directories or containing 'site-packages'; the root handed over in canonical spelling, through a symbolic link living elsewhere, and with a `..` component) and scanned with the real scan_workspace_with_excludes; oracle: the indexed file set equals the reference discovery model, and every root-relative answer and classification is identical across root locations");
     rep.assume("permission-denied cannot be produced as root and is not covered; glob semantics are those of the glob crate (the model uses the same matcher, what is judged is how the scanner applies the patterns)");
 }
